@@ -21,7 +21,7 @@ func valuesFor(p *Plan, e *TypeEntry, r *Rng, nRandom int) []*valueCase {
 }
 
 func profName(p Profile) string {
-	return [...]string{"full", "nil", "empty", "random", "sparse"}[p]
+	return [...]string{"full", "nil", "empty", "random", "sparse", "empty-noptr"}[p]
 }
 
 func runC01(p *Plan) {
